@@ -5,19 +5,19 @@ package spec
 // Contracts for gvc (comment-only; compiled only with -tags verif and then adds no code).
 
 //@ func isDNSNameChar
-//@   property C17
+//@   property C17, C18:safety
 //@   ensures iff: result <==> dnsByte(r)
 //@   assigns nothing
 
 //@ func splitServerName
-//@   property C17
+//@   property C17, C18:safety
 //@   ensures host: result[0] == snHost(string(serverName))
 //@   ensures port: result[1] == snPort(string(serverName))
 //@   ensures port-range: result[1] >= 0 - 1 && result[1] <= 65535
 //@   assigns nothing
 
 //@ func ParseAndValidateServerName
-//@   property C17
+//@   property C17, C18:safety
 //@   ensures iff: valid <==> serverNameOK(string(serverName))
 //@   ensures parts: valid ==> (host == snHost(string(serverName)) && port == snPort(string(serverName)))
 //@   ensures port-range: port >= 0 - 1 && port <= 65535
@@ -25,12 +25,12 @@ package spec
 //@   assigns nothing
 
 //@ func historicallyValidCharacters
-//@   property C17
+//@   property C17, C18:safety
 //@   ensures always: result
 //@   assigns nothing
 
 //@ func parseAndValidateUserID
-//@   property C17
+//@   property C17, C18:safety
 //@   ensures sound-shape: err == nil ==> uidShapeOK(id)
 //@   ensures sound-local: err == nil ==> (allowHistoricalIDs || extcall("(*regexp.Regexp).MatchString", validUsernameRegex, uidLocal(id)))
 //@   ensures complete: (uidShapeOK(id) && (allowHistoricalIDs || extcall("(*regexp.Regexp).MatchString", validUsernameRegex, uidLocal(id)))) ==> err == nil
@@ -40,7 +40,8 @@ package spec
 //@   assigns nothing
 
 //@ func parseAndValidateRoomID
-//@   property C17
+//@   property C17, C18:safety
+//@   defines parses: (err == nil) <==> roomParses(id)
 //@   ensures sound-common: err == nil ==> (len(id) >= 4 && id[0] == 33 && result[0] != nil && result[0].raw == id)
 //@   ensures sound-domain: (err == nil && ridHasDomain(id)) ==> (!result[0].isDomainless && result[0].opaqueID == ridOpaque(id) && result[0].domain == ridDomain(id) && len(result[0].opaqueID) >= 1 && serverNameOK(ridDomain(id)))
 //@   ensures sound-domainless: (err == nil && !ridHasDomain(id)) ==> (result[0].isDomainless && result[0].opaqueID == substr(id, 1, len(id)) && result[0].domain == "" && extcall("(*regexp.Regexp).MatchString", domainlessRoomIDRegexp, substr(id, 1, len(id))))
@@ -49,11 +50,11 @@ package spec
 //@   assigns nothing
 
 //@ func (Timestamp).Time
-//@   property C12, C06
+//@   property C12, C06, C18:safety
 //@   ensures nanos: t <= 9223372036854775807 ==> unixNano(result) == t * 1000000
 //@   assigns nothing
 
 //@ func AsTimestamp
-//@   property C12
+//@   property C12, C18:safety
 //@   ensures millis: unixNano(t) >= 0 ==> result == unixNano(t) / 1000000
 //@   assigns nothing
